@@ -835,6 +835,8 @@ CO_ERR COSdoUploadBlock(CO_SDO *srv)
                 txBuf++;
                 txNum--;
             }
+            /* refill the remaining space of the block from the object entry */
+            num = (srv->Blk.SegNum * 7u) - num;
         } else {
             /* repeat whole buffer (no remaining bytes needed) */
             num = 0u;
